@@ -12,7 +12,7 @@ for p in mutants/*.patch; do
   res=""
   for id in $ids; do
     out=$(SKIP_TESTS=1 tools/mutant.sh $p $id $T 2>&1)
-    if echo "$out" | grep -q "^VIOLATION property=$id"; then res="$res $id:DETECTED"; else if echo "$out" | grep -q "ENGINE\|does not apply\|error:"; then res="$res $id:ERROR"; else res="$res $id:silent"; fi; fi
+    if echo "$out" | grep -aq "^VIOLATION property=$id"; then res="$res $id:DETECTED"; else if echo "$out" | grep -aq "ENGINE\|does not apply\|error:"; then res="$res $id:ERROR"; else res="$res $id:silent"; fi; fi
   done
   echo "$n$res"
 done
